@@ -115,6 +115,15 @@ void sim_ledger_check_empty(const char *when)
         }
     sim_fail("M-ledger:leak", "%ld resources (%ld bytes) still held by the runtime %s:%s", ledger_live, ledger_bytes, when, buf);
 }
+int sim_ledger_contains(const void *lo, const void *hi)
+{
+    /* is [lo,hi) inside one live heap / mmap block obtained by the runtime? */
+    for (unsigned h = 0; h < LEDGER_N; h++)
+        if ((ledger[h].kind == LK_MALLOC || ledger[h].kind == LK_MMAP) && (const char *)ledger[h].p <= (const char *)lo &&
+            (const char *)hi <= (const char *)ledger[h].p + ledger[h].sz)
+            return 1;
+    return 0;
+}
 void sim_ledger_dump(int max)
 {
     int shown = 0;
